@@ -80,6 +80,19 @@ func (s *sut) setAuto() {
 	}
 }
 
+// oracleOnly stops parking state writes (and lets the parked ones succeed), then waits for quiescence.
+func (s *sut) oracleOnly() {
+	s.mu.Lock()
+	s.autoWrite = true
+	pw := s.parkWrite
+	s.parkWrite = map[string]*parked{}
+	s.mu.Unlock()
+	for _, p := range pw {
+		p.ch <- nil
+	}
+	synctest.Wait()
+}
+
 type ticket struct {
 	abs       int
 	size      int64
